@@ -1,0 +1,62 @@
+//go:build verif
+
+// Contracts for the deductive verifier in /verif (comment-only file; see /verif/DESIGN.md).
+
+package portset
+
+// Abstract view of a PortSet: the set of ports p in [0, 65535] whose bit is set.
+//@ pure psHas(s *PortSet, p uint16) bool = s.blocks[p / 64] & (uint(1) << (p % 64)) != 0
+
+//@ func (*PortSet).blockIndex
+//@   inline
+//@ func (*PortSet).bitIndex
+//@   inline
+
+//@ func panicOnZeroPort
+//@   requires port != 0
+//@   modifies nothing
+
+//@ func (*PortSet).Contains
+//@   requires port != 0
+//@   modifies nothing
+//@   ensures result == psHas(s, port)
+
+//@ func (*PortSet).add
+//@   requires port < 65536
+//@   modifies s.blocks[*]
+//@   ensures psHas(s, uint16(port))
+//@   ensures forall q uint16 :: q != uint16(port) ==> psHas(s, q) == old(psHas(s, q))
+
+//@ func (*PortSet).Add
+//@   requires port != 0
+//@   modifies s.blocks[*]
+//@   ensures psHas(s, port)
+//@   ensures forall q uint16 :: q != port ==> psHas(s, q) == old(psHas(s, q))
+
+//@ func (*PortSet).addRange
+//@   requires fromInclusive < toExclusive && toExclusive <= 65536
+//@   modifies s.blocks[*]
+//@   ensures forall q uint16 :: psHas(s, q) == (old(psHas(s, q)) || (uint(q) >= fromInclusive && uint(q) < toExclusive))
+//@   loop 0 modifies s.blocks[*]
+//@   loop 0 invariant fromBlockIndex < i && i <= toBlockIndex && toBlockIndex <= 1024
+//@   loop 0 invariant forall k uint :: k < 1024 ==> s.blocks[k] == (k == fromBlockIndex ? old(s.blocks[k]) | fromBlockMask : (fromBlockIndex < k && k < i ? ^uint(0) : old(s.blocks[k])))
+
+//@ func (*PortSet).AddRange
+//@   requires from != 0 && from < to
+//@   modifies s.blocks[*]
+//@   ensures forall q uint16 :: psHas(s, q) == (old(psHas(s, q)) || (q >= from && q <= to))
+
+//@ func (PortRange).Contains
+//@   modifies nothing
+//@   ensures result == (r.From <= port && port <= r.To)
+
+// A PortRangeSet is well formed when its ranges are non-empty, sorted and disjoint.
+//@ pure prsWF(s PortRangeSet) bool = (forall i int :: 0 <= i && i < len(s.ranges) ==> s.ranges[i].From <= s.ranges[i].To) && (forall i int, j int :: 0 <= i && i < j && j < len(s.ranges) ==> s.ranges[i].To < s.ranges[j].From)
+
+//@ func (PortRangeSet).Contains
+//@   requires prsWF(s)
+//@   modifies nothing
+//@   ensures result == (exists k int :: 0 <= k && k < len(s.ranges) && s.ranges[k].From <= port && port <= s.ranges[k].To)
+//@   loop 0 invariant 0 <= i && i <= j && j <= len(s.ranges)
+//@   loop 0 invariant forall k int :: 0 <= k && k < i ==> s.ranges[k].To < port
+//@   loop 0 invariant forall k int :: j <= k && k < len(s.ranges) ==> port < s.ranges[k].From
